@@ -59,6 +59,15 @@ int main(int argc, char **argv) {
       ref_valid = (((unsigned long)seed) & 0x80000000UL) == 0;
       gsl_rng_set(ref, (unsigned long)seed);
       print_state("S", *g);
+    } else if (op == 'E') {
+      // re-seed the EXISTING (used) generator object: must give the same stream as a fresh generator with that seed
+      std::string s;
+      std::cin >> s;
+      const long long seed = std::strtoll(s.c_str(), nullptr, 10);
+      g->set_seed((int_fast32_t)seed);
+      ref_valid = (((unsigned long)seed) & 0x80000000UL) == 0;
+      gsl_rng_set(ref, (unsigned long)seed);
+      print_state("E", *g);
     } else if (op == 'X') {
       uint64_t w[13];
       unsigned long a[4];
